@@ -184,6 +184,14 @@ func (w *world) replayHistory(hi int, h history) {
 				g.sel = "own"
 			}
 			g.state = "hist"
+			g.staleSig = ""
+			if g.sl != nil && g.sl.st != "valid" {
+				multi := "single-login"
+				if logins >= 2 {
+					multi = "multi-login"
+				}
+				g.staleSig = fmt.Sprintf("stale-authentication:%s:%s:%s", g.sl.kind, g.sl.st, multi)
+			}
 			// reference: does the RPC need authentication?
 			nk := name + "|" + u.role + "|" + g.sel
 			if _, seen := w.okNone[nk]; !seen {
